@@ -72,6 +72,15 @@ def plan(tier, seed):
     for i in range(12 if quick else 60):
         P.add("nesterov", k=int(pick(rng, [20, 50, 100, 200])), acc=bool(i % 2 == 0),
               frac=pick(rng, [1.0, 0.999, 0.5]), L=float(10 ** rng.uniform(-1, 2)))
+    # variables of realistic size (more than 2**16 unknowns) in mixed memory layouts
+    rngb = P.rng("big")
+    for i in range(8 if quick else 40):
+        P.add("big", shape=pick(rngb, [[200, 400], [256, 257], [70, 40, 30], [300, 300]]),
+              cplx=bool(rngb.random() < 0.5), solver=pick(rngb, ["gm", "gm", "pdhg"]),
+              g=pick(rngb, ["l1", "l2"]), lam=float(10 ** rngb.uniform(-1.5, 0)),
+              frac=pick(rngb, [1.0, 0.5]), acc=bool(rngb.random() < 0.5),
+              iters=int(pick(rngb, [12, 25])) if True else 0,
+              xlay=pick(rngb, ["F", "F", "C", "T"]), glay=pick(rngb, ["C", "C", "F", "T"]))
     rng = P.rng("pdhg")
     for i in range(260 if quick else 3500):
         g = pick(rng, ["none", "l1", "l2", "box"])
@@ -189,6 +198,16 @@ def run_gm(case):
     checks = 0
     if single:
         sig += "|single"
+    forked = None
+    if sum(case["rs"]) % 5 == 2 and not single and lay != 1:
+        # the solver is forked with copy.deepcopy before it runs (a checkpoint, variants from
+        # a common warm start): the copy is a solver of its own - same guarantees on its own
+        # x, and the original's array is not touched while the copy runs
+        import copy
+        forked = (alg, x)
+        alg = copy.deepcopy(alg)
+        x = alg.x
+        sig += "|deepcopy"
     while not alg.done():
         alg.update()
         k += 1
@@ -229,7 +248,118 @@ def run_gm(case):
         Fprev = Fk
         if k > case["iters"] + 2:
             return violated(sig, "more than max_iter updates", wit, mech="max_iter")
+    if forked is not None:
+        checks += 1
+        if not np.array_equal(forked[1], x0) or forked[0].iter != 0:
+            return violated(sig, "running a deep copy of the solver changed the original "
+                            "(its x moved by %.3g, iter = %d)" % (
+                                float(np.max(np.abs(forked[1] - x0))), forked[0].iter), wit,
+                            mech="deepcopy-shares-state")
     return held(sig, {"gap/bound": worst, "updates": k}, checks, True)
+
+
+def run_big(case):
+    """Variables of realistic size (an image: more than 2**16 unknowns) in mixed memory
+    layouts: f = 1/2 ||d * x - y||^2 with an element-wise multiplier d (L = max |d|^2) and
+    g = lam ||x||_1 or lam/2 ||x||^2, whose minimiser is known in closed form."""
+    import sigpy as sp
+    rng = rng_for(case)
+    shape = case["shape"]
+    cplx = case["cplx"]
+    dt = np.complex128 if cplx else np.float64
+    d = (0.5 + rng.random(shape)) * (np.exp(2j * np.pi * rng.random(shape)) if cplx else
+                                      np.sign(rng.standard_normal(shape)))
+    d = d.astype(dt)
+    y = crandn(rng, shape, dt)
+    lam = float(case["lam"])
+    L = float(np.max(np.abs(d)) ** 2)
+    alpha = case["frac"] / L
+    sig = "big|%s|%s|%s|%s|%s" % (case["solver"], case["g"], "c" if cplx else "r",
+                                  case["xlay"], case["glay"])
+    wit = dict(case)
+    b_ = np.conj(d) * y
+    if case["g"] == "l1":
+        mag = np.maximum(np.abs(b_) - lam, 0) / np.abs(d) ** 2
+        xs = mag * b_ / np.maximum(np.abs(b_), 1e-300)
+        proxg = sp.prox.L1Reg(shape, lam)
+        gfun = lambda v: lam * float(np.sum(np.abs(v)))            # noqa: E731
+    else:
+        xs = b_ / (np.abs(d) ** 2 + lam)
+        proxg = sp.prox.L2Reg(shape, lam)
+        gfun = lambda v: lam / 2 * float(np.sum(np.abs(v) ** 2))   # noqa: E731
+    F = lambda v: 0.5 * float(np.sum(np.abs(d * v - y) ** 2)) + gfun(v)   # noqa: E731
+    Fs = F(xs)
+    x0 = crandn(rng, shape, dt)
+
+    def lay(a, kind):
+        if kind == "F":
+            return np.asfortranarray(a)
+        if kind == "T":
+            return np.ascontiguousarray(a.T).T
+        return np.ascontiguousarray(a)
+    x = lay(x0.copy(), case["xlay"])
+    checks = 0
+    if case["solver"] == "gm":
+        def gradf(v):
+            return lay(np.conj(d) * (d * v - y), case["glay"])
+        alg = sp.alg.GradientMethod(gradf, x, alpha, proxg=proxg, accelerate=case["acc"],
+                                    max_iter=case["iters"], tol=0)
+        d0 = float(np.sum(np.abs(x0 - xs) ** 2))
+        Fprev = F(x0)
+        k = 0
+        worst = 0.0
+        while not alg.done():
+            alg.update()
+            k += 1
+            if alg.x is not x:
+                return violated(sig, "alg.x is no longer the caller's array", wit,
+                                mech="not-in-place")
+            Fk = F(x)
+            gap = Fk - Fs
+            checks += 2
+            if not case["acc"]:
+                if not Fk <= Fprev + 1e-10 * max(1.0, abs(Fprev)):
+                    return violated(sig, "objective increased at update %d: %.12g -> %.12g "
+                                    "(%d unknowns, x %s-ordered, gradient %s-ordered)" % (
+                                        k, Fprev, Fk, x.size, case["xlay"], case["glay"]), wit,
+                                    mech="gm-monotone")
+                bound = d0 / (2 * alpha * k) * (1 + 1e-6) + 1e-9 * max(1.0, abs(Fs))
+            else:
+                bound = 2 * d0 / (alpha * (k + 1) ** 2) * (1 + 1e-6) + 1e-9 * max(1.0, abs(Fs))
+            worst = max(worst, gap / bound)
+            if not gap <= bound:
+                return violated(sig, "objective gap %.6g after %d updates exceeds the bound "
+                                "%.6g (%d unknowns, x %s-ordered, gradient %s-ordered)" % (
+                                    gap, k, bound, x.size, case["xlay"], case["glay"]), wit,
+                                mech="gm-rate")
+            Fprev = Fk
+        return held(sig, {"gap/bound": worst, "updates": k, "unknowns": int(x.size)}, checks,
+                    True)
+    # primal-dual: A = Multiply(d), f*(u) from the least-squares data term
+    A = sp.linop.Multiply(shape, d)
+    u = lay(np.zeros(shape, dt), case["glay"])
+    nA = float(np.max(np.abs(d)))
+    tau = sigma = 0.95 / nA
+    alg = sp.alg.PrimalDualHybridGradient(sp.prox.L2Reg(shape, 1, y=-y), proxg, A, A.H, x, u,
+                                          tau, sigma, max_iter=4 * case["iters"], tol=0)
+    e0 = nrm(x0 - xs)
+    prev = None
+    while not alg.done():
+        alg.update()
+        if alg.x is not x or alg.u is not u:
+            return violated(sig, "alg.x / alg.u is no longer the caller's array", wit,
+                            mech="not-in-place")
+    eK = nrm(x - xs)
+    checks += 1
+    if case["g"] == "l2" and not eK <= 0.05 * e0:
+        return violated(sig, "no convergence to the minimiser: ||x_K - x*|| / ||x0 - x*|| = "
+                        "%.3g after %d updates (%d unknowns, x %s-ordered, u %s-ordered)" % (
+                            eK / e0, 4 * case["iters"], x.size, case["xlay"], case["glay"]), wit,
+                        mech="pdhg-convergence")
+    if not F(x) <= F(x0) + 1e-9 * abs(F(x0)) or not eK <= e0 * (1 + 1e-9):
+        return violated(sig, "the primal-dual run ended further from the minimiser than it "
+                        "started (%.3g -> %.3g)" % (e0, eK), wit, mech="pdhg-convergence")
+    return held(sig, {"err_ratio": eK / e0, "unknowns": int(x.size)}, checks, True)
 
 
 def run_nesterov(case):
@@ -518,5 +648,7 @@ def run_pdhg_conv(case):
 
 
 def run_case(case):
+    if case["gen"] == "big":
+        return run_big(case)
     return {"gm": run_gm, "nesterov": run_nesterov, "pdhg": run_pdhg,
             "pdhg-conv": run_pdhg_conv}[case["gen"]](case)
